@@ -23,6 +23,7 @@ type Verifier struct {
 	sendFields     map[string]bool // "pkg.T.field" on which some Send instruction in the module operates
 	closeFields    map[string][]string
 	escapingChanFields map[string]string // chan field -> why its channels are not confined to the field
+	chanFromGlobal     map[string][]string
 	sweepDone      bool
 	curExec        *Exec
 	interfMemo     map[*ssa.Function]int
@@ -162,6 +163,24 @@ func (v *Verifier) stableWg(st *State, x *Exec) []*Term {
 // chanFieldKey: "pkg.T.field" if the channel value is loaded from a struct field.
 func chanFieldKey(v ssa.Value) string {
 	if u, ok := v.(*ssa.UnOp); ok && u.Op == token.MUL {
+		if g, ok := u.X.(*ssa.Global); ok {
+			return "global:" + g.Pkg.Pkg.Name() + "." + g.Name()
+		}
+		if a, ok := u.X.(*ssa.Alloc); ok {
+			// naive SSA: a result/local variable; follow its single store
+			var src ssa.Value
+			n := 0
+			for _, ref := range *a.Referrers() {
+				if st, ok := ref.(*ssa.Store); ok && st.Addr == ssa.Value(a) {
+					src = st.Val
+					n++
+				}
+			}
+			if n == 1 && src != nil {
+				return chanFieldKey(src)
+			}
+			return ""
+		}
 		if fa, ok := u.X.(*ssa.FieldAddr); ok {
 			if ns := namedStruct(pointee(fa.X.Type())); ns != nil {
 				stt := ns.Underlying().(*types.Struct)
@@ -171,6 +190,27 @@ func chanFieldKey(v ssa.Value) string {
 	}
 	if c, ok := v.(*ssa.ChangeType); ok {
 		return chanFieldKey(c.X)
+	}
+	if c, ok := v.(*ssa.Call); ok {
+		// a getter that returns a channel field (e.g. (*Message).Acked): the field's key
+		if sc := c.Call.StaticCallee(); sc != nil && sc.Blocks != nil {
+			key := ""
+			for _, b := range sc.Blocks {
+				if b == sc.Recover {
+					continue
+				}
+				for _, in := range b.Instrs {
+					if r, ok := in.(*ssa.Return); ok && len(r.Results) == 1 {
+						k := chanFieldKey(r.Results[0])
+						if k == "" || (key != "" && key != k) {
+							return ""
+						}
+						key = k
+					}
+				}
+			}
+			return key
+		}
 	}
 	return ""
 }
@@ -183,6 +223,16 @@ func (v *Verifier) sweep() {
 	v.sendFields = map[string]bool{}
 	v.closeFields = map[string][]string{}
 	v.escapingChanFields = map[string]string{}
+	v.chanFromGlobal = map[string][]string{}
+	defer func() {
+		for k, gs := range v.chanFromGlobal {
+			for _, g := range gs {
+				if v.sendFields[g] {
+					v.escapingChanFields[k] = "assigned from " + g + " on which the module sends"
+				}
+			}
+		}
+	}()
 	for fn := range v.P.All {
 		if fn.Package() == nil || fn.Package().Pkg == nil || !strings.HasPrefix(fn.Package().Pkg.Path(), modulePath) {
 			continue
@@ -201,6 +251,14 @@ func (v *Verifier) sweep() {
 								case *ssa.MakeChan:
 								case *ssa.Const:
 									_ = val
+								case *ssa.UnOp:
+									// a package-level channel (e.g. the pre-closed closedchan): acceptable when the
+									// module never sends on it; recorded for the final pass
+									if g, ok := val.X.(*ssa.Global); ok && val.Op == token.MUL {
+										v.chanFromGlobal[k] = append(v.chanFromGlobal[k], "global:"+g.Pkg.Pkg.Name()+"."+g.Name())
+									} else {
+										v.escapingChanFields[k] = "assigned from " + v.P.Pos(st.Pos())
+									}
 								default:
 									v.escapingChanFields[k] = "assigned from " + v.P.Pos(st.Pos())
 								}
@@ -227,9 +285,34 @@ func (v *Verifier) sweep() {
 								okUse = true // comparison with nil
 							case *ssa.DebugRef:
 								okUse = true
+							case *ssa.ChangeType:
+								// handed out as a receive-only channel: nobody else can send on or close it
+								if ct, ok := r.Type().Underlying().(*types.Chan); ok && ct.Dir() == types.RecvOnly {
+									okUse = true
+								}
+							case *ssa.Store:
+								// copied into a local variable (naive SSA form): fine unless it is the stored-to address
+								if _, isAlloc := r.Addr.(*ssa.Alloc); isAlloc && r.Val == ssa.Value(u) {
+									okUse = false
+								}
+							}
+							if rt, isRet := ref.(*ssa.Return); isRet {
+								// returned as a receive-only channel: the caller can neither send on it nor close it
+								for ri, rv := range rt.Results {
+									if rv == ssa.Value(u) {
+										if ct, ok := fn.Signature.Results().At(ri).Type().Underlying().(*types.Chan); ok && ct.Dir() == types.RecvOnly {
+											okUse = true
+										}
+									}
+								}
+							}
+							if d, isDefer := ref.(*ssa.Defer); isDefer {
+								if bi, isB := d.Call.Value.(*ssa.Builtin); isB && bi.Name() == "close" {
+									okUse = true
+								}
 							}
 							if !okUse {
-								v.escapingChanFields[k] = "value flows elsewhere at " + v.P.Pos(ref.Pos())
+								v.escapingChanFields[k] = fmt.Sprintf("value flows elsewhere at %s (%T)", v.P.Pos(ref.Pos()), ref)
 							}
 						}
 					}
